@@ -277,6 +277,9 @@ class CrashNet:
         self.down_conn = [None] * n     # the boss's end towards node i
         self.alive = [True] * n
         self.sent_shutdown = [False] * n
+        self.half = [False] * n
+        self.outreset_done = False
+        self.hold_recv = None           # (boss, victim): let the outgoing thread win
         self.blocked_workers = set()
         self.labels = []
         self.values = {}                # id(result object) -> index
@@ -393,7 +396,8 @@ class CrashNet:
             p = self.topo[i][0]
             dc, uc = self.down_conn[i], self.up_conn[i]
             if self.alive[p] and self.running(p) and not dc.closed and (
-                    dc.inbox or not self.node_up_open(i)):
+                    dc.inbox or not self.node_up_open(i)) \
+                    and self.hold_recv != (p, i):
                 en.append(('recvEmp', p, i))
             if self.alive[i] and not uc.closed and (
                     uc.inbox or not self.boss_down_open(i)):
@@ -411,6 +415,27 @@ class CrashNet:
             elif self.alive[i] and self.running(i) \
                     and self.node[i].s.outgoing.items:
                 en.append(('flush', i))
+        for i in range(self.n):
+            if not self.half[i] or not self.alive[i]:
+                continue
+            if i == 0:
+                for c, (cp, sc) in enumerate(zip(self.clients, self.srv_client)):
+                    if not sc.closed and (sc.inbox or cp.comp.conn is None):
+                        en.append(('wake', 0, c))
+            else:
+                uc = self.up_conn[i]
+                if not uc.closed and (uc.inbox or not self.boss_down_open(i)):
+                    en.append(('wake', i, 0))
+        if self.hold_recv is not None:
+            p, v = self.hold_recv
+            items = self.node[p].s.outgoing.items
+            if self.alive[p] and self.running(p) and items \
+                    and items[0][0] is self.down_conn[v] \
+                    and not self.down_conn[v].closed:
+                return [('outreset', p, v)]      # the race the outgoing thread wins
+            if not en or not (self.alive[p] and self.running(p)):
+                self.hold_recv = None
+                return self.enabled()
         for c, (cp, sc) in enumerate(zip(self.clients, self.srv_client)):
             if self.running(0) and not sc.closed and (
                     sc.inbox or cp.comp.conn is None):
@@ -502,6 +527,7 @@ class CrashNet:
             sim = None if worker else self.node[i]
             nodes.append({
                 'a': int(self.alive[i]),
+                'h': int(self.half[i]),
                 'r': 1 if worker else int(bool(sim.s.running)),
                 'c': 0 if worker else int(len(sim.s.employees) == 0),
                 'u': 1 if i == 0 else int(not self.up_conn[i].closed),
@@ -681,6 +707,50 @@ class CrashNet:
                 wrote = 1
             lines.append(f'crash {i} {int(trunc)}')
             del wrote
+        elif kind == 'outreset':
+            # the outgoing thread (a real thread) gets ConnectionResetError while
+            # sending to the dead employee v
+            _, i, v = tr
+            sim = self.node[i]
+            s_ = sim.s
+            conn = self.down_conn[v]
+            conn.send_error = ConnectionResetError(104, 'Connection reset')
+            exc = []
+
+            def target():
+                try:
+                    sim.cls.send_outgoing(s_)
+                except H.Drained:
+                    pass
+                except BaseException as e:      # noqa: BLE001 - recorded
+                    exc.append(e)
+            n0 = len(self.log)
+            th = threading.Thread(target=target, daemon=True)
+            s_.outgoing_thread = th
+            s_.outgoing.budget = 1
+            th.start()
+            th.join(60)
+            s_.outgoing.budget = 0
+            conn.send_error = None
+            for x in self.log[n0:]:
+                if x[0] == 'send' and x[2][0] == self.M.SHUTDOWN:
+                    for c in self.children[i]:
+                        if x[1] is self.down_conn[c]:
+                            self.sent_shutdown[c] = True
+            self.outreset_exc = exc
+            self.outreset_done = True
+            self.half[i] = True
+            self.hold_recv = None
+            lines.append(f'outReset {i}')
+        elif kind == 'wake':
+            _, i, c = tr
+            sim = self.node[i]
+            try:
+                sim.cls.run(sim.s)      # loop condition false: `finally` clause
+            except Exception as e:
+                sim.escaped = e
+            self.half[i] = False
+            lines.append(f'wake {i} {c}')
         elif kind == 'werror':
             # Worker._loop: an exception outside task code -> ERROR(str) upstream,
             # the loop ends, the process exits
@@ -820,7 +890,7 @@ def compare(real, model):
     """List of differences between the observed and the model state."""
     diffs = []
     for i, (a, b) in enumerate(zip(real['nodes'], model['nodes'])):
-        for k in ('a', 'r', 'c', 'u', 'd', 'S', 'y', 'out', 'in'):
+        for k in ('a', 'r', 'h', 'c', 'u', 'd', 'S', 'y', 'out', 'in'):
             if k == 'c' and not a['a']:
                 continue
             if a[k] != b[k]:
@@ -925,6 +995,15 @@ class Case:
                     self.obs.append(None)
                     self.fault_at = len(self.lines)
                     self._do(('crash', fault[1], fault[2]))
+                elif fault[0] == 'outreset':
+                    v = fault[1]
+                    if not net.alive[v]:
+                        return self
+                    self.lines.append(f'track {v}')
+                    self.obs.append(None)
+                    self.fault_at = len(self.lines)
+                    self._do(('crash', v, False))
+                    net.hold_recv = (net.topo[v][0], v)
                 elif fault[0] == 'werror':
                     if not net.alive[fault[1]]:
                         return self
@@ -948,6 +1027,7 @@ class Case:
                 if second is not None:
                     second = (second[0] - 1, second[1], second[2])
         finally:
+            self.blocked_at_end = [cp.conn.blocked for cp in net.clients]
             net.stop()
         return self
 
@@ -975,6 +1055,8 @@ def oracles(case):
     srv = net.server.s
     victim = a['fault'][1]
     vk = {1: 'manager', 2: 'worker'}[net.kind[victim]]
+    if net.outreset_done:
+        vk = 'outgoing-reset:' + vk
     if srv.running:
         bad.append((f'server-still-running:{vk}',
                     'server.running is True at quiescence after the fault'))
@@ -983,7 +1065,7 @@ def oracles(case):
             bad.append((f'client-conn-open:{vk}',
                         f'client connection {c} not closed by the server'))
     for c, cp in enumerate(net.clients):
-        if cp.conn.blocked:
+        if case.blocked_at_end[c]:
             bad.append((f'client-blocked:{vk}',
                         f'client {c} still blocked in recv() at quiescence'))
         if net.script[c]:
